@@ -75,9 +75,12 @@ fn main() {
         if vars.len() <= 3 {
             for env in assignments(&vars, &grid) {
                 rep.count("points_evaluated");
+                let _ = harness::eval::take_noise();
                 let v0 = eval(e, &env);
                 let vs = eval(&s, &env);
                 let vf = eval(&f, &env);
+                // a truth test or a zero-divisor test hit f64 rounding noise in one of the three spellings: not comparable in f64
+                if harness::eval::take_noise() { rep.count("points_skipped.truth_test_on_rounding_noise"); continue; }
                 let close = |a: f64, b: f64| (a - b).abs() <= 1e-9 * a.abs().max(b.abs()).max(1.0);
                 match v0 {
                     Some(a) if a.is_finite() => {
